@@ -9,16 +9,17 @@ env = dict(os.environ, GOFLAGS="-mod=mod", GOPROXY="off", GOSUMDB="off", GOTOOLC
 # Tapes whose violation is meanwhile prevented by a second, later fix as well (or whose
 # schedule was shifted by a later change of the same function) are not listed: they
 # still replay clean on HEAD, but reverting one fix no longer brings the violation back.
-# (511ee29's two C04 tapes were validated until 8c57a91 rewrote the same function.)
+# (511ee29's two C04 tapes were validated until 8c57a91 rewrote the same function, 0ae2d62's
+# C18 tape until 7c952f8 did.)
 TABLE = [
  ("regress/C05/zombie-connection-after-shutdown.json", "de0edc7"),
  ("regress/C17/resolved-during-start-not-reported.json", "fef7e2e"),
  ("regress/C11/dead-connection-registered-4fdf982.json", "4fdf982"),
  ("regress/C05/dead-connection-registered-4fdf982.json", "4fdf982"),
  ("regress/C10/cancel-in-init-phase-7f3aedc.json", "7f3aedc"),
- ("regress/C18/direct-notification-overtakes-delayed.json", "0ae2d62"),
  ("regress/C05/stale-attempt-after-graceful-close-7248753.json", "7248753"),
  ("regress/C10/trust-after-unregister-inflight-report-8c57a91.json", "8c57a91"),
+ ("regress/C18/direct-state-overwritten-before-notified.json", "7c952f8"),
 ]
 pairs = TABLE
 if len(sys.argv) > 2:
